@@ -1,6 +1,7 @@
 """C15, second sentence, at record level: the extracted Coq micro-step model coq/FatCrash (every
-path operation of FatVol as the ordered list of its elementary stores) against the REAL
-operation traced line by line (harness/fattrace.py: every intermediate image).
+path operation of FatVol as the ordered list of its elementary stores, every _clean_entries()
+spelled out record by record: micro_x) against the REAL operation traced line by line
+(harness/fattrace.py: every intermediate image).
 
 For every seeded operation on a small synthesised FAT12/16/32 volume
   model:  runner 'FatCrash', command "micro" -> the states the operation goes through (before
@@ -15,38 +16,52 @@ For every seeded operation on a small synthesised FAT12/16/32 volume
 Comparison (stated precisely): let R be the traced states with consecutive repetitions removed
 and M the model's states.  R[0] = M[0], R[last] = M[last], and R is a SUBSEQUENCE of M (each
 traced state is found, in order, among the model's states at or after the previous match).
-The model may be finer than the tracer (several stores in one source line, e.g. the FSInfo
-sector and the FAT entry inside one __setitem__ call when its lines do not end between them;
-ghost steps MReg / MForget; zeroing of clusters, which is not part of the record-level state),
-never coarser: a state the implementation goes through that the model does not list, or lists
-in another order, is reported as `fs.crash/order:<op>`.
+The model may be finer than the tracer (several stores in one source line; ghost steps MReg /
+MForget; zeroing of clusters and stores to records behind the end marker, which change no
+record-level state), never coarser: a state the implementation goes through that the model does
+not list, or lists in another order, is reported as `fs.crash/order:<op>`.
 Outcome classes and the final state are compared as in fat_vol_corr (the model state is threaded
-through the history, so dead slots are the model's)."""
+through the history, so dead slots are the model's); the last model state must be FatVol's step
+state (micro_x_refines_step, evaluated)."""
 import time, warnings
 import lib, fatimg, fatspec, fatops, fattrace
 import fat_vol_corr as FV
 
 SPEC_THEOREMS = {
-    'micro_refines_step': 'folding all micro-steps of an operation gives exactly the state of FatVol.step (every operation, every outcome; '
-                          'no hypothesis needed)',
-    'bystanders_intact': 'at EVERY prefix of the micro-step list of an operation on a state with VolInv: every look-up key that resolved to a '
-                         'non-target entry (file or directory, by long name or alias) resolves to the identical entry (same size, same first '
-                         'cluster); its chain is the same list of clusters and no cluster of it was set, freed, re-linked or zeroed by the prefix',
-    'prefix_inv_weak': 'at every prefix the chains of all non-target owners are well-formed, pairwise disjoint and unchanged; every FAT entry '
-                       'that differs from the start belongs to a target chain, was free at the start, or is the last cluster of the directory '
-                       'that receives the new entry (re-linked, never freed)',
-    'compaction (partial)': '_clean_entries is ONE step in micro; its record-by-record order is a separate model (FatCrash/ProofsClean.v)',
+    'micro_refines_step / micro_x_refines_step': 'folding all micro-steps of an operation (also with compactions spelled out) gives exactly the '
+                                                 'state of FatVol.step -- every operation, every outcome, no hypothesis needed',
+    'bystanders_intact': 'at EVERY prefix of the micro-step list of an operation on a state with VolInv (guards of FatVol): every look-up key '
+                         '(long name in any case, alias) that resolved to an entry the operation does not name -- file or directory -- resolves to '
+                         'the IDENTICAL entry; the chain of such a file is the same list of clusters, each FAT entry of it has its value, and none '
+                         "of its clusters was stored to (set / freed / re-linked) or zeroed by the prefix; '.' / '..' change only in the directory "
+                         'created / removed / moved',
+    'bystander_paths_resolve': 'a path none of whose components selects an entry the operation names resolves to the same entry at every prefix',
+    'prefix_inv_weak': 'at every prefix: a FAT entry that differs from the start was free, belongs to a chain the operation frees / rewrites, or is '
+                       'the re-linked (never free) last cluster of the directory that receives the new entry; all other owners\' chains are '
+                       'unchanged, well-formed and pairwise disjoint -- "inconsistent only in the target"',
+    'dir_chains_readable': 'the chain of every directory (but the one rmdir removes) keeps its old chain as a prefix at every crash point',
+    'clean_last / clean_view_bound / bystanders_intact_x': '_clean_entries() record by record ends in the compacted directory; after ANY store in '
+                                                          'between every entry of the directory is listed in full or under its 8.3 name only '
+                                                          '(possibly twice) with its attributes, size, first cluster, and nothing else is listed; '
+                                                          'every prefix state of micro_x is a prefix state of micro or one with one directory in '
+                                                          'such a view.  (So: during a compaction a look-up by LONG name can transiently fail.)',
+    'FC_rename_* / FC_append_on_dead_slots / FC_compaction_*': 'non-vacuity by vm_compute: rename over a 3-cluster file with every intermediate '
+                                                               'state, the theorems applied to it; the short-name-first append; the views of a '
+                                                               'compaction incl. the one where a long name is hidden',
 }
 TRUSTED = [
     'Coq 8.16.1 kernel; vm_compute only in the Examples',
     'extraction (ExtrOcamlBasic), runner/driver.ml, OCaml',
     'abstraction as FatVol: directory records as decoded entries + dead slots, cluster data and timestamps ignored, str.upper() as a table',
+    'compaction model: the long-name records of an entry are recognised by its alias (on disk: the 8-bit checksum of the 8.3 name, assumed not to '
+    'collide between two entries of one directory)',
     'harness/fattrace.py: a crash point is a point between two executed source lines of fs.py / path.py',
     'the specification reader Fat/Spec.v + Fat/Check.v (validated in C03) reads every intermediate image',
     'harness/fatimg.py image synthesis',
 ]
 
-KIND = {0: 'MInfo', 1: 'MTbl', 2: 'MZero', 3: 'MZeroTail', 4: 'MUpd', 5: 'MDel', 6: 'MTail', 7: 'MClean', 8: 'MReg', 9: 'MDot',
+LENIENT_COMPACTION = False      # True: accept any state inside a compaction that satisfies clean_window_ok (debugging aid only)
+KIND = {12: 'MView', 0: 'MInfo', 1: 'MTbl', 2: 'MZero', 3: 'MZeroTail', 4: 'MUpd', 5: 'MDel', 6: 'MTail', 7: 'MClean', 8: 'MReg', 9: 'MDot',
         10: 'MDotDot', 11: 'MForget'}
 
 
@@ -185,6 +200,9 @@ class Traced:
         mout = 'ok' if mres[0] == 'ok' else FV.EXN.get(mres[1], mres[1])
         mstates = [FV.unwire_state(FV.restr(v)) for v in out[1]]
         steps = [show_step(s) for s in out[2]]
+        ctx.stat('crash-model-stores', len(steps))
+        ctx.stat('crash-compaction-views', sum(1 for st in steps if st[0] == 'MView'))
+        ctx.stat('crash-short-name-first-appends', sum(1 for a, b in zip(steps, steps[1:]) if a[0] == 'MTail' and b[0] == 'MTail'))
         final = FV.restr(out[3])
         res, events = self.tr.run(lambda: fatops.apply_impl(p.fs, op))
         got = res[1] if res[0] == 'ok' else fatops.exc_class(res[1])
@@ -222,7 +240,7 @@ class Traced:
             k = j
             while k < len(M) and M[k] != r:
                 k += 1
-            if k == len(M) and j < len(steps) and steps[j][0] == 'MClean' and clean_window_ok(uncanon(r), uncanon(M[j]), steps[j][1]) is None:
+            if k == len(M) and LENIENT_COMPACTION and j < len(steps) and steps[j][0] == 'MClean' and clean_window_ok(uncanon(r), uncanon(M[j]), steps[j][1]) is None:
                 ctx.stat('crash-states-inside-compaction')        # _clean_entries moves record by record: bound checked, see clean_window_ok
                 continue
             if k == len(M):
@@ -258,6 +276,15 @@ def scripts(g):
                     (lambda p: dict(op='unlink', path=p)), (lambda p: dict(op='touch', path=p))
     R = lambda a, b: dict(op='rename', path=a, target=b)
     TR = lambda p, n: dict(op='truncate', path=p, size=n, buffering=0)
+    if g.root_entries == 16:
+        L = lambda k: f'/long file name number {k}.txt'          # 3 slots each
+        yield 'compaction-lfn', [
+            T('/x'), T(L(1)), T(L(2)), T(L(3)), T(L(4)), T('/yy'), T('/z'),          # 15 slots + the end record: full
+            UN('/x'), T('/another long name here.txt'),                             # every group moves down by ONE slot (copies overlap)
+            UN(L(2)), UN('/yy'), MK('/a directory with a long name'),                # groups move by 3 and by 4 slots
+            UN(L(1)), UN(L(3)), T('/q'), T('/r'), T('/s'), T('/t'), T('/u'), T('/v'), T('/w'), UN('/r'), UN('/t'),
+            R('/q', '/a long target name for q.bin'), T('/one more long name that fails.txt')]
+        return
     yield 'rename-over-3-clusters', [
         W('/a.txt', 5), W('/big file with a long name.bin', 2 * cs + 7), W('/c.txt', cs), MK('/d'), W('/d/x', 3),
         R('/c.txt', '/big file with a long name.bin'), R('/big file with a long name.bin', '/d/moved over.bin'), R('/d', '/e'), R('/e', '/a.txt'),
@@ -322,6 +349,11 @@ def run(ctx):
             if not ctx.thorough and label not in own and hash((label, ft)) % 1 == 0 and \
                     label not in (('rename-targets', 'root-full'), ('directory-into-its-own-subtree', 'slots-and-growth'), ('rmdir-cases', 'volume-full'))[n % 3]:
                 continue
+            if not run_script(ctx, rng, table, g, label, ops, totals):
+                return
+    for ft in ('fat12', 'fat16'):
+        g = fatimg.Geometry(ft, 40, spc=1, bps=512, nfats=2, root_entries=16, fsinfo=True, type_string=True)
+        for label, ops in scripts(g):
             if not run_script(ctx, rng, table, g, label, ops, totals):
                 return
     for i in range(12 if ctx.thorough else 2):
